@@ -311,8 +311,12 @@ func finish(spec *Spec, tier string, seed int, start time.Time, jobs []Job, resu
 			tot.MaxDepth = r.MaxDepth
 		}
 		capped = capped || r.Capped
+		base := r.Name
+		if i := strings.Index(base, " #"); i >= 0 {
+			base = base[:i] // shards of one scenario share its outcome set
+		}
 		for _, o := range r.Outcomes {
-			outcomes[r.Name+"#"+o] = true
+			outcomes[base+"#"+o] = true
 		}
 		for k, v := range r.Counters {
 			counters[k] += v
